@@ -12,6 +12,7 @@ IdxMin == TIdxMin
 IdxMax == TIdxMax
 OMS == TOMS
 Unusable == TUnusable
+Policy == TPolicy
 INSTANCE SpectrumOps
 
 T == ndJsonDeserialize(IOEnv.TRACE_FILE)
@@ -43,8 +44,12 @@ StepClauses(oc, e) ==
       \cup (IF e.st = "served" /\ (\E j \in J : ~\E s \in SeqRange(t.slots) :
                                       (s.n = NONE \/ s.n = nm[j].n) /\ (s.m = NONE \/ s.m = nm[j].m))
             THEN {"UserFixedHonouredOrBlocked"} ELSE {})
-      \cup (IF e.st = "served" /\ t.slots = <<NoSel>> /\ (\E n \in Slots : n < nm[1].n /\ OkAt(busy, n, nm[1].m))
+      \cup (IF Policy = "first_fit" /\ e.st = "served" /\ t.slots = <<NoSel>> /\ (\E n \in Slots : n < nm[1].n /\ OkAt(busy, n, nm[1].m))
             THEN {"FirstFitIsLowest"} ELSE {})
+      \cup (IF Policy = "last_fit" /\ e.st = "served" /\ t.slots = <<NoSel>> /\ (\E n \in Slots : n > nm[1].n /\ OkAt(busy, n, nm[1].m))
+            THEN {"LastFitIsHighest"} ELSE {})
+      \cup (IF e.st = "NO_SPECTRUM" /\ t.slots = <<NoSel>> /\ (\E n \in Slots : OkAt(busy, n, NbWl(t) * Pcm(t)))
+            THEN {"FreeSlotServedWhenFeasible"} ELSE {})
       \cup (IF e.st \notin {"served", "preblocked", "NO_SPECTRUM", "NOT_ENOUGH_RESERVED_SPECTRUM"}
             THEN {"ServedOrBlocked"} ELSE {})
 
